@@ -164,7 +164,7 @@ def gen_type(rng, depth, lit_ok=True, hashable=False, allow=None, no_dc=False):
                               {'op': 'and', 'kids': [{'op': 'nonneg'}, {'op': 'user', 'fn': 'small'}]}))]
         return Ty('cond', [inner], conds=[C.with_names(c) for c in cs])
     if k == 'tagged':
-        return gen_tagged(rng, d)
+        return gen_tagged(rng, d, naming=rng.random() < 0.25)
     if k == 'dc':
         return Ty('dc', spec=gen_class(rng, d))
     if k == 'ndarray':
